@@ -527,7 +527,11 @@ class FnTranslator:
         a = node.args
         if a.vararg or a.kwarg or a.kwonlyargs or a.posonlyargs:
             self.fail(node, "unsupported parameter kind (*args / **kwargs / keyword-only)")
-        decs = [ast.unparse(d) for d in node.decorator_list]
+        # `ignore_decorators` (plug-in, third round): decorators `name(..)` the plug-in declares to leave the function's
+        # behaviour alone (`docstring_format_args(..)` only formats `__doc__`); an entry assumption, stated in the plug-in
+        ign = set(self.cfg.get("ignore_decorators", ()))
+        decs = [ast.unparse(d) for d in node.decorator_list
+                if not (isinstance(d, ast.Call) and ast.unparse(d.func) in ign)]
         if decs not in ([], ["classmethod"], ["staticmethod"]):
             self.fail(node, "decorated function")
         # `@classmethod`: the first parameter (the class) is implicit and not bound (any use of it is rejected);
@@ -712,7 +716,14 @@ class FnTranslator:
         if isinstance(st, ast.Return):
             if st.value is None:
                 return self.ret_term(st, ("unit", "()", U), env)
-            pre, val = self.expr(st.value, env)
+            rv = st.value
+            if self.cfg.get("ret_first_of_pair"):
+                # `return valid, f"..."` (third round): only the first component is translated; the second (a message
+                # string) is not evaluated -- assumed to have no effect and not to raise.  Every `return` must be a pair.
+                if not (isinstance(rv, ast.Tuple) and len(rv.elts) == 2):
+                    self.fail(st, "`ret_first_of_pair`: a `return` that is not a literal pair")
+                rv = rv.elts[0]
+            pre, val = self.expr(rv, env)
             return self.wrap_pre(pre, self.ret_term(st, val, env))
         if isinstance(st, ast.Assert):
             pre, c = self.cond(st.test, env)
@@ -802,6 +813,9 @@ class FnTranslator:
         # opaque call: the assigned names become parameters of the translated function
         if isinstance(value, ast.Call) and ast.unparse(value.func) in self.opaque:
             return self.opaque_assign(st, value, targets, env, rest)
+        # opaque attribute (third round): `lo, hi = cls.stride_range` where the plug-in declares the attribute opaque
+        if isinstance(value, ast.Attribute) and ast.unparse(value) in self.opaque:
+            return self.opaque_assign(st, value, targets, env, rest)
         # opaque target: `name = <anything>` where the configuration declares `name` opaque (a value computed
         # with floats); the name becomes a parameter
         if len(targets) == 1 and isinstance(targets[0], ast.Name) and targets[0].id in self.opaque_targets \
@@ -846,7 +860,7 @@ class FnTranslator:
     def opaque_assign(self, st, call, targets, env, rest):
         if st not in self.node.body:
             self.fail(st, "opaque call outside the top level of the function body")
-        shapes = self.opaque[ast.unparse(call.func)]
+        shapes = self.opaque[ast.unparse(call.func if isinstance(call, ast.Call) else call)]
         if len(targets) != 1:
             self.fail(st, "chained assignment of an opaque call")
         tg = targets[0]
